@@ -5,10 +5,12 @@ from __future__ import annotations
 import glob
 import os
 import shutil
+import struct
 import tempfile
 from io import BytesIO
 
-from vlib import chunktools, faults
+from checks import c05
+from vlib import chunktools, faults, specmodel
 from vlib.harness import REPO, VERIF, PropertyViolation
 
 PROPERTY_ID = "C18"
@@ -45,7 +47,7 @@ def fixture_files():
 def plan(tier):
     files = fixture_files()
     items = [{"src": "fixture", "path": f, "size": os.path.getsize(f)} for f in files]
-    items += [{"src": "generated", "name": n, "size": 20000} for n in ("meta_in_meta", "sampler_effect", "meta_sampler_effect", "meta_depth3")]
+    items += [{"src": "generated", "name": n, "size": 20000} for n in ("meta_in_meta", "sampler_effect", "meta_sampler_effect", "meta_depth3", "meta_enum_mapped")]
     if tier == "thorough":
         # generated files with nested loads (recipes drawn with a pinned seed per item)
         items += [{"src": "recipe", "name": "recipe%02d" % i, "index": i, "size": 30000} for i in range(24)]
@@ -121,6 +123,16 @@ def generated_bytes(name):
         mm = m.MetaModule()
         mm.project.attach_module(sampler_with_effect())
         return Synth(mm).read()
+    if name == "meta_enum_mapped":
+        mm = m.MetaModule()
+        mm.project.new_module(m.AnalogGenerator)
+        mm.project.new_module(m.Amplifier)
+        mm.mappings.values[0] = mm.Mapping((1, 1))  # AnalogGenerator.waveform (enum)
+        mm.mappings.values[1] = mm.Mapping((2, 1))  # Amplifier.balance (negative minimum)
+        mm.user_defined_controllers = 2
+        p = Project()
+        p.attach_module(mm)
+        return p.read()
     if name == "meta_depth3":
         a = m.MetaModule()
         a.project.attach_module(sampler_with_effect())
@@ -199,6 +211,16 @@ def one_load(ctx, ident, data, path, access, flag0, fault):
             info["nested_loads"] = cstate["nested_loads"]
             flag_after = rv.errors.RAISE_CONTROLLER_VALUE_ERRORS
             files_state = [(f.closed, f.reads, f.fired) for f in tracker.files]
+        # the caller has handled and dropped the exception (its frames, suspended generators and
+        # their pending clean-ups are finalised): the setting must still be what it was
+        raised_name = type(raised).__name__ if raised is not None else None
+        raised = raised_name  # keep only the name; the exception object itself is released
+        e = None
+        import gc
+
+        if raised is not None:
+            gc.collect(1)  # the exception, its traceback frames and anything suspended in them are young objects
+        flag_later = rv.errors.RAISE_CONTROLLER_VALUE_ERRORS
     finally:
         rv.errors.RAISE_CONTROLLER_VALUE_ERRORS = True
     info["reads"] = (stream.reads if stream is not None else (files_state[0][1] if files_state else 0))
@@ -206,8 +228,15 @@ def one_load(ctx, ident, data, path, access, flag0, fault):
     ctx.check(
         flag_after is flag0,
         "C18.flag_restored",
-        "%s: flag was %r before the load and %r after (fault %s@%s, %s, raised=%r)" % (ident, flag0, flag_after, kind, pos, access, type(raised).__name__ if raised else None),
+        "%s: flag was %r before the load and %r after (fault %s@%s, %s, raised=%r)" % (ident, flag0, flag_after, kind, pos, access, raised),
         key="C18.flag_restored",
+        recipe=rec,
+    )
+    ctx.check(
+        flag_later is flag0,
+        "C18.flag_after_exception_released",
+        "%s: flag was %r before the load, %r when the call ended and %r once the exception had been dropped (fault %s@%s, %s, raised=%r)" % (ident, flag0, flag_after, flag_later, kind, pos, access, raised),
+        key="C18.flag_after_exception_released",
         recipe=rec,
     )
     if access == "path":
@@ -215,7 +244,7 @@ def one_load(ctx, ident, data, path, access, flag0, fault):
         ctx.check(
             all(c for c, _, _ in files_state),
             "C18.file_closed",
-            "%s: a file opened by the library is still open after the call (fault %s@%s, raised=%r)" % (ident, kind, pos, type(raised).__name__ if raised else None),
+            "%s: a file opened by the library is still open after the call (fault %s@%s, raised=%r)" % (ident, kind, pos, raised),
             key="C18.file_closed",
             recipe=rec,
         )
@@ -253,6 +282,24 @@ def semantic_variants(data):
             c2[i] = (cid, b"\x63" + payload[1:])
             out.append(("bad_cmid_enum@%d" % i, chunktools.build(c2)))
             break
+    # controller values that are not members of their enumeration (fixed and user-defined controllers)
+    info, types = c05.section_info(chunks)
+    spec = specmodel.load()
+    done = 0
+    for i, (mod_i, ordinal) in enumerate(info):
+        if ordinal is None or done >= 3:
+            continue
+        t = types.get(mod_i)
+        if t not in spec:
+            continue
+        ctls = spec[t].controllers
+        is_enum = ordinal < len(ctls) and ctls[ordinal].kind == "enum"
+        is_user = t == "MetaModule" and ordinal >= len(ctls)
+        if is_enum or is_user:
+            c2 = list(chunks)
+            c2[i] = (b"CVAL", struct.pack("<i", 9999))
+            out.append(("bad_enum_cval@%d" % i, chunktools.build(c2)))
+            done += 1
     for i, (cid, payload) in enumerate(chunks):
         if cid == b"SCOL":
             c2 = list(chunks)
